@@ -103,12 +103,14 @@ def hostile_names(ctx, model_ok, tmp):
     b = repo.make_butler(root, run="base")
     b.registry.insertDimensionData("instrument", {"name": "I"})
     b.registry.insertDimensionData("detector", {"instrument": "I", "id": 1, "full_name": "d1"})
+    b.registry.insertDimensionData("detector", {"instrument": "I", "id": 2, "full_name": "d2"})
     dt = DatasetType("dt", {"instrument", "detector"}, "StructuredDataDict", universe=b.dimensions)
     dtf = DatasetType("dtf", {"instrument", "physical_filter"}, "StructuredDataDict", universe=b.dimensions)
     b.registry.registerDatasetType(dt)
     b.registry.registerDatasetType(dtf)
     req, impl = [], []
     absroot = os.path.abspath(root)
+    rootcomps = [c for c in os.path.realpath(root).split("/") if c]
 
     def viol(what, key, replay):
         ctx.violations.append(core.Violation(what=what, key=key, replay=replay))
@@ -120,7 +122,10 @@ def hostile_names(ctx, model_ok, tmp):
         return {k for k, v in listing(root).items() if v != "dir" and "sqlite" not in k and k != "butler.yaml"}
 
     n_gen = 100 if ctx.quick() else 1500
-    runs = list(CORPUS_RUNS) + [gen_name(rng) for _ in range(n_gen)]
+    # names that leave the root into a *sibling whose name starts like the root's* (prefix tests are not containment tests)
+    rb = os.path.basename(root)
+    siblings = [f"../{rb}_backup/r", f"../{rb}2/r", f"u/../../{rb}x/r", f"../{rb}/../{rb}.old/r", f"../{rb}"]
+    runs = list(CORPUS_RUNS) + siblings + [gen_name(rng) for _ in range(n_gen)]
     seen_runs = set(b.registry.queryCollections())
     case = 0
     for run_name in runs:
@@ -168,7 +173,7 @@ def hostile_names(ctx, model_ok, tmp):
             # checked against the filesystem oracle only, not against the placement model
             modelled = "%" not in run_name
             if modelled:
-                req.append(f"path place {hexs(run_name)} {hexl(['dt'])} {hexl(['dt', 'I', 'd1'])}")
+                req.append(f"path place {hexl(rootcomps)} {hexs(run_name)} {hexl(['dt'])} {hexl(['dt', 'I', 'd1'])}")
             else:
                 ctx.count("hostile-run:not-modelled(%)")
             if ref is None:
@@ -190,17 +195,42 @@ def hostile_names(ctx, model_ok, tmp):
                         problems.append("reads back different content")
                 except Exception as e:
                     problems.append(f"cannot be read back ({type(e).__name__})")
+                # a second dataset in the same run; then the first is pruned alone, then the second
+                ref2 = None
+                try:
+                    ref2 = b.put({"v": -case}, dt, instrument="I", detector=2, run=run_name)
+                    with_two = inside_files()
+                    uri2 = b.getURI(ref2)
+                except Exception as e:
+                    problems.append(f"a second dataset cannot be stored in the run ({type(e).__name__})")
                 try:
                     b.pruneDatasets([ref], purge=True, unstore=True, disassociate=True)
                 except Exception as e:
                     problems.append(f"cannot be pruned ({type(e).__name__}: {str(e)[:80]})")
+                if ref2 is not None:
+                    rel1 = os.path.relpath(uri.ospath, absroot)
+                    if rel1 in inside_files() and uri.ospath != uri2.ospath:
+                        problems.append(f"its artifact {rel1} is still there after it was pruned while a sibling in the run stays")
+                    try:
+                        if b.get(ref2) != {"v": -case}:
+                            problems.append("the sibling in the run reads back different content after the prune")
+                    except Exception as e:
+                        problems.append(f"the sibling in the run cannot be read after the prune ({type(e).__name__})")
+                    try:
+                        b.pruneDatasets([ref2], purge=True, unstore=True, disassociate=True)
+                    except Exception as e:
+                        problems.append(f"the sibling cannot be pruned ({type(e).__name__}: {str(e)[:80]})")
                 if inside_files() != before_in:
-                    problems.append(f"after the prune the root differs: +{sorted(inside_files() - before_in)} -{sorted(before_in - inside_files())}")
+                    problems.append(f"after pruning everything the root differs: +{sorted(inside_files() - before_in)} -{sorted(before_in - inside_files())}")
                 if outside() != before_out:
                     problems.append("the prune changed something outside the root")
                 if problems:
-                    viol(f"{how} with run name {run_name!r} -> {rel}: " + "; ".join(problems), f"hostile:{how}:{run_name}",
+                    leak = all("still there" in x or "root differs: +" in x for x in problems) and "#" in run_name
+                    viol(f"{how} with run name {run_name!r} -> {rel}: " + "; ".join(problems),
+                         "hash-in-run-name-leaks-artifact" if leak else f"hostile:{how}:{run_name}",
                          {"kind": "hostile-run", "run": run_name, "how": how, "problems": problems})
+                    for f_ in inside_files() - before_in:
+                        os.remove(os.path.join(root, f_))
             os.remove(src)
             ctx.sample({"run": run_name, "how": how, "implementation": impl[-1]}, cap=6)
 
@@ -238,7 +268,7 @@ def hostile_names(ctx, model_ok, tmp):
                 shutil.rmtree(os.path.join(area, x), ignore_errors=True)
         modelled = "%" not in v
         if modelled:
-            req.append(f"path place {hexs(vrun)} {hexl(['dtf', band, v])} {hexl(['dtf', 'I', band, v])}")
+            req.append(f"path place {hexl(rootcomps)} {hexs(vrun)} {hexl(['dtf', band, v])} {hexl(['dtf', 'I', band, v])}")
         if ref is None:
             impl.append("refused") if modelled else None
         else:
